@@ -115,7 +115,7 @@ theorem Inv.start (h : Inv g root k P (qe :: R') none s) : Inv g root k P (qe ::
     exact ⟨R', by rw [hc.1]⟩
 
 theorem Inv2.start (h : Inv2 g P (qe :: R') none s) : Inv2 g P (qe :: R') (some (qe, 0)) s := by
-  refine ⟨h.histND, ?_, h.allND, h.allSorted, ?_⟩
+  refine ⟨h.histND, ?_, h.allND, h.allSorted, ?_, ?_, ?_, h.fbND, h.fbSorted⟩
   · intro e' he'
     obtain ⟨e, j, hd, hi⟩ := h.queueS e' he'
     rcases hd with hd | ⟨i, hc, _⟩
@@ -124,6 +124,15 @@ theorem Inv2.start (h : Inv2 g P (qe :: R') none s) : Inv2 g P (qe :: R') (some 
   · intro e j d hd
     rcases hd with hd | ⟨i, hc, hj⟩
     · exact h.good e j d (Or.inl hd)
+    · simp only [Option.some.injEq, Prod.mk.injEq] at hc; omega
+  · intro f hf
+    obtain ⟨e, j, hd, hfb, hi⟩ := h.fbS f hf
+    rcases hd with hd | ⟨i, hc, _⟩
+    · exact ⟨e, j, Or.inl hd, hfb, hi⟩
+    · cases hc
+  · intro e j hd
+    rcases hd with hd | ⟨i, hc, hj⟩
+    · exact h.fbC e j (Or.inl hd)
     · simp only [Option.some.injEq, Prod.mk.injEq] at hc; omega
 
 theorem fieldAt_lt {sid : StructId} {j : Nat} {d : FieldDecl} (h : FieldAt g sid j d) : j < (g.fieldsOf sid).length := by
@@ -169,12 +178,18 @@ theorem Inv.finish (h : Inv g root k P (qe :: R') (some (qe, (g.fieldsOf qe.sid)
 theorem Inv2.finish (h : Inv2 g P (qe :: R') (some (qe, (g.fieldsOf qe.sid).length)) s) :
     Inv2 g (P ++ [qe]) R' none s := by
   have hh : hist (P ++ [qe]) R' s = hist P (qe :: R') s := by simp [hist]
-  refine ⟨by rw [hh]; exact h.histND, ?_, h.allND, h.allSorted, ?_⟩
+  refine ⟨by rw [hh]; exact h.histND, ?_, h.allND, h.allSorted, ?_, ?_, ?_, h.fbND, h.fbSorted⟩
   · intro e' he'
     obtain ⟨e, j, hd, hi⟩ := h.queueS e' he'
     exact ⟨e, j, done_finish' hd, hi⟩
   · intro e j d hd hf
     exact h.good e j d (done_finish (fieldAt_lt hf) hd) hf
+  · intro f hf
+    obtain ⟨e, j, hd, hfb, hi⟩ := h.fbS f hf
+    exact ⟨e, j, done_finish' hd, hfb, hi⟩
+  · intro e j hd hfb
+    obtain ⟨d, hf, ho⟩ := hfb
+    exact h.fbC e j (done_finish (fieldAt_lt hf) hd) ⟨d, hf, ho⟩
 
 theorem Inv3.processStruct (h : Inv3 g root k P (qe :: R') none s) (herr : (processStruct g qe s).err = none) :
     Inv3 g root k (P ++ [qe]) R' none (processStruct g qe s) := by
@@ -203,7 +218,8 @@ theorem Inv3.nextLevel (h : Inv3 g root k P [] none s) :
   refine ⟨⟨fun e he => Nat.le_succ_of_le (h.a.depthP e he), h.a.depthQ, (by intro e he; cases he),
     by rw [hh]; exact h.a.seenW, by rw [hh]; exact h.a.seenH, by rw [hh]; exact h.a.firstW, by rw [hh]; exact h.a.firstP,
     by rw [hh]; exact h.a.kids, by rw [hh]; exact h.a.reach, h.a.memb, h.a.allS, by intro _ _ hc; cases hc⟩,
-    ⟨by rw [hh]; exact h.b.histND, (by intro e he; cases he), h.b.allND, h.b.allSorted, h.b.good⟩⟩
+    ⟨by rw [hh]; exact h.b.histND, (by intro e he; cases he), h.b.allND, h.b.allSorted, h.b.good,
+      h.b.fbS, h.b.fbC, h.b.fbND, h.b.fbSorted⟩⟩
 
 /-- The invariants at the end of `bfs`, for a call in the recursive shape (`frontier = s.queue`). -/
 theorem Inv3.bfs : ∀ (fuel : Nat) (s : St) (k : Nat) (P : List QE),
@@ -248,11 +264,15 @@ theorem Inv.init : Inv g root 0 [] [{ sid := root, index := [], visit := true }]
   · intro f hf; cases hf
 
 theorem Inv2.init : Inv2 g [] [{ sid := root, index := [], visit := true }] none { seen := [root] } := by
-  refine ⟨by simp [hist], (by intro e he; cases he), by simp, by simp, ?_⟩
-  intro e j d hd
-  rcases hd with hd | ⟨i, hc, _⟩
-  · cases hd
-  · cases hc
+  refine ⟨by simp [hist], (by intro e he; cases he), by simp, by simp, ?_, (by intro f hf; cases hf), ?_, by simp, by simp⟩
+  · intro e j d hd
+    rcases hd with hd | ⟨i, hc, _⟩
+    · cases hd
+    · cases hc
+  · intro e j hd
+    rcases hd with hd | ⟨i, hc, _⟩
+    · cases hd
+    · cases hc
 
 /-- The invariants hold when an error-free `search` returns. -/
 theorem Inv3.search (herr : (Model.Fields.search g root).err = none) :
